@@ -236,6 +236,10 @@ CLAIMS["C18"]["text"] += " Every subscript of the slot table is bounds-tested an
 CLAIMS["C36"]["text"] += " Every exit of a from_vm (both binding flavours) has consumed the value it converts (MIRROR)."
 CLAIMS["C37"]["text"] += " Membership, id and size queries answer from the index tables only, never from the occupancy of the storage buffers (OWN-IDSET)."
 CLAIMS["C38"]["text"] += " The growth test bounds every additive term of the written extent (ARENA-BOUNDS)."
+CLAIMS["C12"]["text"] += " Witness rows are stacks: the fields of a re-assembled constructor are taken from the end the row grows at (WITNESS-STACK)."
+CLAIMS["C01"]["text"] += " A value taken out of an always-occupied slot (array element, variant payload) is dropped when its static type is void (VOID-SLOT); the epilogue is chosen from the result type of the compiled instance, and the return context is pushed exactly for the body kinds that end in Return (EPILOGUE)."
+CLAIMS["C02"]["text"] += " Void placeholders never stay on the operand stack under later operands (VOID-SLOT); every sibling body of a construct (match arm) is resolved in a scope of its own, so a use resolves to the innermost visible declaration (SCOPE)."
+CLAIMS["C21"]["text"] += " Sibling bodies (match arms) get one scope each (SCOPE)."
 NOT_APPLICABLE["C33"] = "unit inference (char index vs byte offset vs token index) over lexer/parser/diagnostics needs the type-resolved MIR engine with per-field def-use; that engine was not completed in the time available, and no sound syntactic proxy was found (a name-based one would alarm on behaviour-preserving edits)"
 
 for _p in []:
